@@ -174,9 +174,86 @@ def _skip_from_cond(cond: str, keyvar: str) -> typing.List[str]:
     raise Unsupported('loop condition `%s`' % cond)
 
 
+KS_EXPR = 'options.keys() | sort(case_sensitive=true) | join(",") | ' + FILTER
+
+
+def _namespaces(pre: str, where: str) -> typing.List[str]:
+    """C++ namespaces open at the end of `pre`, innermost last"""
+    ns: typing.List[str] = []
+    for t in re.finditer(r'^[ \t]*namespace[ \t]+(\w+)[ \t]*\n?[ \t]*\{|^[ \t]*\}[ \t]*//[ \t]*(?:end[ \t]+)?namespace[ \t]+(\w+)', pre, re.M):
+        if t.group(1):
+            ns.append(t.group(1))
+        elif ns and ns[-1] == t.group(2):
+            ns.pop()
+        else:
+            raise Unsupported('%s: namespace nesting' % where)
+    return ns
+
+
+def _block_stack(text: str, pos: int, where: str):
+    stack: typing.List[typing.Tuple[str, str, typing.Any]] = []
+    for m, w, rest in _tags(text):
+        if m.start() > pos:
+            break
+        if w in OPENERS or (w == 'set' and '=' not in rest):
+            stack.append((w, rest, m))
+        elif w.startswith('end'):
+            if not stack or stack[-1][0] != w[3:]:
+                raise Unsupported('%s: unbalanced block tags near offset %d' % (where, m.start()))
+            stack.pop()
+    return stack
+
+
+def scan_keyset(lang: str, kind: str, text: str) -> typing.Tuple[typing.Optional[dict], str]:
+    """the optional key-set fingerprint statement (the F-OPTGUARD-KEYSET fix); returns (facts | None, text with the
+    statement blanked out so that the per-option scanner sees the loop only)"""
+    where = TEMPLATES[(lang, kind)]
+    if kind == 'type':
+        rx = r'static_assert\(\s*(?P<sym>[\w:]+)\s*==\s*\{\{\s*(?P<e>[^}]*?)\s*\}\}\s*,(?P<msg>[^;]*?)\)\s*;'
+    elif lang == 'c':
+        rx = r'^[ \t]*#[ \t]*define[ \t]+(?P<sym>\w+)[ \t]+\{\{\s*(?P<e>[^}]*?)\s*\}\}[ \t]*$'
+    else:
+        rx = r'^[ \t]*constexpr[ \t]+std::uint32_t[ \t]+(?P<sym>\w+)[ \t]*=[ \t]*\{\{\s*(?P<e>[^}]*?)\s*\}\}[ \t]*;'
+    found = []
+    for m in re.finditer(rx, text, re.S | re.M):
+        e = re.sub(r'\|\s*ln\.c\.' + FILTER, '| ' + FILTER, _norm(m.group('e')))
+        if e == KS_EXPR:
+            found.append(m)
+    if not found:
+        return None, text
+    if len(found) != 1:
+        raise Unsupported('%s: %d key-set fingerprint statements' % (where, len(found)))
+    m = found[0]
+    if kind == 'type' and MESSAGE not in re.sub(r'"\s*"', '', m.group('msg')):
+        raise Unsupported('%s: the key-set assertion message does not name the mismatch' % where)
+    stack = _block_stack(text, m.start(), where)
+    ctx = [(w, _norm(rest)) for w, rest, _m in stack]
+    unless_omit = False
+    if ctx and ctx[0] == ('if', 'not nunavut.support.omit'):
+        unless_omit = True
+        ctx = ctx[1:]
+    lo, hi = m.start(), m.end()
+    if ctx:
+        ok = (len(ctx) == 2 and ctx[0][0] == 'for' and re.fullmatch(r'\w+\s*,\s*\w+ in options\.items\(\)', ctx[0][1]) and ctx[1] == ('if', 'loop.first'))
+        if not ok:
+            raise Unsupported('%s: key-set fingerprint inside %s' % (where, ctx))
+        # must be alone in its `if loop.first` block, which is blanked out together with it
+        if_m = stack[-1][2]
+        end = re.compile(r'\s*\{%-?\s*endif\s*-?%\}').match(text, m.end())
+        if text[if_m.end():m.start()].strip() or not end:
+            raise Unsupported('%s: key-set assertion shares its `if loop.first` block with other output' % where)
+        lo, hi = if_m.start(), end.end()
+    sym = m.group('sym')
+    if kind == 'support' and lang == 'cpp':
+        sym = '::'.join(_namespaces(text[:m.start()], where) + [sym])
+    blanked = text[:lo] + re.sub(r'[^\n]', ' ', text[lo:hi]) + text[hi:]
+    return {'symbol': sym, 'unless_omit': unless_omit}, blanked
+
+
 def scan_loop(lang: str, kind: str, text: str) -> dict:
     where = TEMPLATES[(lang, kind)]
     text = _strip_comments(text)
+    keyset, text = scan_keyset(lang, kind, text)
     occ = [m.start() for m in re.finditer(re.escape(FILTER), text)]
     if len(occ) != 1:
         raise Unsupported('%s: %d uses of %s (expected exactly one guard loop)' % (where, len(occ), FILTER))
@@ -269,16 +346,7 @@ def scan_loop(lang: str, kind: str, text: str) -> dict:
         am = re.search(r'^[ \t]*constexpr[ \t]+std::uint32_t[ \t]+(?P<lhs>\{\{[^\n]+?\}\})[ \t]*=[ \t]*\{\{\s*(?P<val>[^}]+?)\s*\}\}[ \t]*;[ \t]*$', body, re.M)
         if not am:
             raise Unsupported('%s: no `constexpr std::uint32_t {{ name }} = {{ value | %s }};` in the loop' % (where, FILTER))
-        # enclosing C++ namespaces, innermost last
-        pre = text[:for_m.start()]
-        ns: typing.List[str] = []
-        for t in re.finditer(r'^[ \t]*namespace[ \t]+(\w+)[ \t]*\n?[ \t]*\{|^[ \t]*\}[ \t]*//[ \t]*(?:end[ \t]+)?namespace[ \t]+(\w+)', pre, re.M):
-            if t.group(1):
-                ns.append(t.group(1))
-            elif ns and ns[-1] == t.group(2):
-                ns.pop()
-            else:
-                raise Unsupported('%s: namespace nesting' % where)
+        ns = _namespaces(text[:for_m.start()], where)
         lhs = '::'.join(ns + [am.group('lhs')])
         val = am.group('val')
     # name expression: one {{ ... }} with an optional literal prefix
@@ -290,7 +358,10 @@ def scan_loop(lang: str, kind: str, text: str) -> dict:
     val = re.sub(r'\|\s*ln\.c\.' + FILTER, '| ' + FILTER, val)
     if keyvar == valvar:
         raise Unsupported('%s: loop variables' % where)
-    return {'iter': iter_expr, 'skip': sorted(set(skip)), 'name': name, 'value': val, 'unless_omit': unless_omit}
+    if keyset is not None and keyset['unless_omit'] != unless_omit:
+        raise Unsupported('%s: the key-set fingerprint and the option loop are not under the same omit condition' % where)
+    return {'iter': iter_expr, 'skip': sorted(set(skip)), 'name': name, 'value': val, 'unless_omit': unless_omit,
+            'keyset': keyset['symbol'] if keyset else None}
 
 
 # ---------------------------------------------------------------------------------------------
@@ -404,6 +475,8 @@ def load_facts() -> dict:
             for g in groups[other].values():
                 if k in g and type(g[k]) is type(dv):
                     vals.append(g[k])
+            # free-text options: the same text written with different spacing is a different value
+            vals += [''.join(v.split()) for v in list(vals) if isinstance(v, str) and v != ''.join(v.split())]
             uniq = []
             for v in vals:
                 if not any(type(v) is type(u) and v == u for u in uniq):
@@ -415,6 +488,14 @@ def load_facts() -> dict:
             optional[lang].append('std')
         domain[lang] = dom
     keys = {lang: [k for k, _ in domain[lang]] for lang in ('c', 'cpp')}
+    # documented key sets: the yaml keys plus any subset of the optional keys
+    keysets = {}
+    for lang in ('c', 'cpp'):
+        base = [k for k, _ in opts[lang]]
+        ks = [list(base)]
+        for k in optional[lang]:
+            ks += [x + [k] for x in ks]
+        keysets[lang] = ks
     p = subprocess.run([os.environ.get('VERIF_PY', '/venv/bin/python'), '-c', _PROBE, yaml_path, json.dumps(keys)],
                        env=_repo_env(), stdout=subprocess.PIPE, stderr=subprocess.STDOUT, text=True, timeout=120)
     if p.returncode != 0 or '@@' not in p.stdout:
@@ -423,14 +504,14 @@ def load_facts() -> dict:
     for lang in ('c', 'cpp'):
         if [list(x) for x in probe['yaml'][lang]['options']] != [list(x) for x in opts[lang]]:
             raise Unsupported('yaml seen by the subprocess differs')
-    return {'options': opts, 'groups': groups, 'domain': domain, 'optional': optional, 'names': probe['names'],
+    return {'options': opts, 'groups': groups, 'domain': domain, 'optional': optional, 'names': probe['names'], 'keysets': keysets,
             'effective_defaults': probe['effective'], 'endianness': endian, 'std_choices': std_by_lang, 'ctor': ctor}
 
 
 def _coq_side(name: str, s: dict) -> str:
-    return ('Definition %s : side :=\n  {| sd_iter := %s;\n     sd_skip := [%s];\n     sd_name := %s;\n     sd_value := %s;\n     sd_unless_omit := %s |}.'
+    return ('Definition %s : side :=\n  {| sd_iter := %s;\n     sd_skip := [%s];\n     sd_name := %s;\n     sd_value := %s;\n     sd_unless_omit := %s;\n     sd_keyset := %s |}.'
             % (name, coq_str(s['iter']), '; '.join(coq_str(k) for k in s['skip']), coq_str(s['name']), coq_str(s['value']),
-               'true' if s['unless_omit'] else 'false'))
+               'true' if s['unless_omit'] else 'false', ('Some %s' % coq_str(s['keyset'])) if s['keyset'] else 'None'))
 
 
 def gen_optguard() -> typing.Tuple[bool, str]:
@@ -456,8 +537,12 @@ def gen_optguard() -> typing.Tuple[bool, str]:
                      % (lang, lang, ';\n   '.join('(%s, %s)' % (coq_str(k), coq_val(v)) for k, v in facts['options'][lang])))
         parts.append('(* documented values per option *)\nDefinition %s_domain : list (list N * list oval) :=\n  [%s].'
                      % (lang, ';\n   '.join('(%s,\n      [%s])' % (coq_str(k), ';\n       '.join(coq_val(v) for v in vs)) for k, vs in facts['domain'][lang])))
+        parts.append('(* documented key sets *)\nDefinition %s_keysets : list (list (list N)) :=\n  [%s].'
+                     % (lang, ';\n   '.join('[%s]' % '; '.join(coq_str(k) for k in ks) for ks in facts['keysets'][lang])))
         parts.append('(* symbol rendered for each key by the real filter *)\nDefinition %s_names : list (list N * list N) :=\n  [%s].'
                      % (lang, ';\n   '.join('(%s, %s)' % (coq_str(k), coq_str(n)) for k, n in facts['names'][lang])))
+    parts.append('(* fully qualified option symbols *)\nDefinition c_symbols : list (list N) := map snd c_names.\n'
+                 'Definition cpp_symbols : list (list N) := map (fun kn => %s ++ snd kn) cpp_names.' % coq_str('nunavut::support::options::'))
     gen.write_if_changed(OUT, HEAD + '\n\n'.join(parts) + '\n')
     return True, 'ok (%d + %d options, %d docstring examples)' % (len(facts['options']['c']), len(facts['options']['cpp']), len(examples))
 
